@@ -27,6 +27,9 @@ pub struct Rec {
     pub singles: Result<Vec<u64>, String>,
     /// the same logical query through a query array whose static type is NOT Ix1 (general path)
     pub general: Result<Vec<u64>, String>,
+    /// interp_array_into through the general path (dynamic rank-1 query) into a buffer of the same
+    /// (possibly wrong) shape: Ok / Err(message) / panic
+    pub general_into: Result<Vec<u64>, String>,
     pub shape: Vec<usize>,
 }
 
@@ -117,9 +120,14 @@ fn query_vals<T: El>(dq: &str, hi: f64, salt: usize, variant: u8) -> Vec<T> {
     let m = if dq == "Ix0" { 1 } else { 5 };
     let mut v: Vec<T> = (0..m).map(|i| el::<T>(all[(i + salt) % all.len()].min(hi))).collect();
     // variants 1, 2: one element (not the last one of a batch) is out of range
-    if (variant == 1 || variant == 2) && salt == 0 {
+    if (variant == 1 || variant == 2 || variant == 5) && salt == 0 {
         let p = if m > 1 { 1 } else { 0 };
         v[p] = el::<T>(-5.0);
+    }
+    // variant 6: two different out-of-range elements (the query is stored back to front)
+    if variant == 6 && salt == 0 && m > 3 {
+        v[1] = el::<T>(-5.0);
+        v[3] = el::<T>(99.0);
     }
     // variant 3: both zeros next to each other (they compare equal but are different queries)
     if variant == 3 {
@@ -175,7 +183,7 @@ macro_rules! inst1 {
             let x: Array1<$t> = (0..shape[0]).map(|i| el::<$t>(i as f64)).collect();
             let qv = query_vals::<$t>(stringify!($dq), (shape[0] - 1) as f64, 0, variant);
             let qs = query_shape(stringify!($dq), qv.len());
-            let q = ArrayD::from_shape_vec(IxDyn(&qs), qv.clone()).unwrap().into_dimensionality::<$dq>().expect("query rank");
+            let q = stored::<$t, $dq>(&qs, &qv, variant);
             let ip = Interp1DBuilder::new(st!($s, data)).x(st!($s, x)).build().expect("valid build");
             let qa = st!($s, q);
             verif_hooks::reset_counters();
@@ -183,6 +191,10 @@ macro_rules! inst1 {
             let casts = verif_hooks::counters().casts;
             let mut expected = qs.clone();
             expected.extend_from_slice(&shape[1..]);
+            if variant == 5 && !qs.is_empty() {
+                let ax = qs.iter().position(|&l| l > 1).unwrap_or(0);
+                expected[ax] += 1; // one row too many
+            }
             let mut buf = ArrayD::from_elem(IxDyn(&expected), el::<$t>(0.0));
             verif_hooks::reset_counters();
             let batch_into = catch(|| ip.interp_array_into(&qa, buf.view_mut().into_dimensionality().expect("buffer rank")));
@@ -198,6 +210,10 @@ macro_rules! inst1 {
             // general path with the same logical query: a dynamic-rank query array
             let qd = ArrayD::from_shape_vec(IxDyn(&[qv.len()]), qv.clone()).unwrap();
             let general = catch(|| ip.interp_array(&qd)).and_then(|r| r.map(|a| to_bits(&a)).map_err(|e| e.to_string()));
+            let mut gshape = vec![qv.len() + (variant == 5) as usize];
+            gshape.extend_from_slice(&shape[1..]);
+            let mut gbuf = ArrayD::from_elem(IxDyn(&gshape), el::<$t>(0.0));
+            let general_into = catch(|| ip.interp_array_into(&qd, gbuf.view_mut())).and_then(|r| r.map(|_| to_bits(&gbuf)).map_err(|e| e.to_string()));
             Rec {
                 casts,
                 casts_into,
@@ -206,6 +222,7 @@ macro_rules! inst1 {
                 batch_into: batch_into.and_then(|r| r.map(|_| to_bits(&buf)).map_err(|e| e.to_string())),
                 singles,
                 general,
+                general_into,
             }
         }
     };
@@ -222,8 +239,8 @@ macro_rules! inst2 {
             let qxv = query_vals::<$t>(stringify!($dq), (shape[0] - 1) as f64, 0, variant);
             let qyv = query_vals::<$t>(stringify!($dq), (shape[1] - 1) as f64 * 2.0, 1, variant);
             let qs = query_shape(stringify!($dq), qxv.len());
-            let qx = ArrayD::from_shape_vec(IxDyn(&qs), qxv.clone()).unwrap().into_dimensionality::<$dq>().expect("query rank");
-            let qy = ArrayD::from_shape_vec(IxDyn(&qs), qyv.clone()).unwrap().into_dimensionality::<$dq>().expect("query rank");
+            let qx = stored::<$t, $dq>(&qs, &qxv, variant);
+            let qy = stored::<$t, $dq>(&qs, &qyv, variant);
             let ip = Interp2DBuilder::new(st!($s, data)).x(st!($s, x)).y(st2!($s, y)).build().expect("valid build");
             let (qxa, qya) = (st!($s, qx), st2!($s, qy));
             verif_hooks::reset_counters();
@@ -231,6 +248,10 @@ macro_rules! inst2 {
             let casts = verif_hooks::counters().casts;
             let mut expected = qs.clone();
             expected.extend_from_slice(&shape[2..]);
+            if variant == 5 && !qs.is_empty() {
+                let ax = qs.iter().position(|&l| l > 1).unwrap_or(0);
+                expected[ax] += 1; // one row too many
+            }
             let mut buf = ArrayD::from_elem(IxDyn(&expected), el::<$t>(0.0));
             verif_hooks::reset_counters();
             let batch_into = catch(|| ip.interp_array_into(&qxa, &qya, buf.view_mut().into_dimensionality().expect("buffer rank")));
@@ -246,6 +267,10 @@ macro_rules! inst2 {
             let qxd = ArrayD::from_shape_vec(IxDyn(&[qxv.len()]), qxv.clone()).unwrap();
             let qyd = ArrayD::from_shape_vec(IxDyn(&[qyv.len()]), qyv.clone()).unwrap();
             let general = catch(|| ip.interp_array(&qxd, &qyd)).and_then(|r| r.map(|a| to_bits(&a)).map_err(|e| e.to_string()));
+            let mut gshape = vec![qxv.len() + (variant == 5) as usize];
+            gshape.extend_from_slice(&shape[2..]);
+            let mut gbuf = ArrayD::from_elem(IxDyn(&gshape), el::<$t>(0.0));
+            let general_into = catch(|| ip.interp_array_into(&qxd, &qyd, gbuf.view_mut())).and_then(|r| r.map(|_| to_bits(&gbuf)).map_err(|e| e.to_string()));
             Rec {
                 casts,
                 casts_into,
@@ -254,9 +279,29 @@ macro_rules! inst2 {
                 batch_into: batch_into.and_then(|r| r.map(|_| to_bits(&buf)).map_err(|e| e.to_string())),
                 singles,
                 general,
+                general_into,
             }
         }
     };
+}
+
+/// the query array of a static dimension type; variant 6 stores it back to front (negative stride
+/// along the first axis, same logical contents)
+fn stored<T: El, D: Dimension>(shape: &[usize], vals: &[T], variant: u8) -> Array<T, D> {
+    let mut q = ArrayD::from_shape_vec(IxDyn(shape), vals.to_vec()).unwrap().into_dimensionality::<D>().expect("query rank");
+    if variant == 6 && q.ndim() >= 1 {
+        for ax in 0..q.ndim() {
+            let flipped = q.clone();
+            let mut rev = flipped.clone();
+            rev.invert_axis(ndarray::Axis(ax));
+            // rev holds the elements in reverse logical order (standard layout after to_owned)
+            let mut back = rev.as_standard_layout().to_owned();
+            back.invert_axis(ndarray::Axis(ax));
+            debug_assert!(back == q);
+            q = back;
+        }
+    }
+    q
 }
 
 fn nd_of(d: &str, two_d: bool) -> usize {
@@ -288,11 +333,14 @@ fn body(ctx: &Ctx) -> (Summary, Meta) {
     let sum = run_jobs(ctx, "instantiations", &jobs, |&i| TABLE[i].0.to_string(), |&i| {
         let (name0, kind, d, dq, s, t, f) = TABLE[i];
         let mut out = JobOut::default();
-      for variant in 0u8..5 {
+      for variant in 0u8..7 {
         if variant == 3 && (t == "i32" || t == "i64") {
             continue; // no signed zero
         }
-        let name = format!("{name0}{}", ["", ":one-element-out-of-range", ":zero-lane-data+out-of-range", ":signed-zeros", ":one-element-just-above-the-range"][variant as usize]);
+        if variant == 5 && dq == "Ix0" {
+            continue; // a single query has no leading buffer axis
+        }
+        let name = format!("{name0}{}", ["", ":one-element-out-of-range", ":zero-lane-data+out-of-range", ":signed-zeros", ":one-element-just-above-the-range", ":buffer-one-row-too-long+out-of-range", ":query-stored-back-to-front+two-out-of-range"][variant as usize]);
         let name = name.as_str();
         let r = f(variant);
         out.evals += 1;
@@ -325,6 +373,9 @@ fn body(ctx: &Ctx) -> (Summary, Meta) {
         };
         // a failed type-identity assertion inside cast_unchecked surfaces as a panic
         for (what, res) in [("interp_array", &r.batch), ("interp_array_into", &r.batch_into)] {
+            if variant == 5 && what == "interp_array_into" {
+                continue; // judged below: same class as the general path
+            }
             if let Err(p) = res {
                 if variant >= 1 && variant != 3 && !p.contains("cast_unchecked") && !p.contains("panicked") && p.contains("not in range") {
                     continue; // the expected OutOfBounds error
@@ -358,7 +409,23 @@ fn body(ctx: &Ctx) -> (Summary, Meta) {
                 out.violate(format!("{name}:vs-into"), "interp_array differs from interp_array_into".to_string(), case());
             }
         }
-        if variant >= 1 && variant != 3 {
+        // the *_into form of the fast path against the *_into form of the general path: same class
+        // (Ok / Err / panic), same bits when Ok
+        {
+            let class = |x: &Result<Vec<u64>, String>| match x {
+                Ok(_) => "Ok",
+                Err(e) if e.contains("not in range") && !e.contains("panicked") && !e.contains(" @ ") => "Err(OutOfBounds)",
+                Err(_) => "panic",
+            };
+            if class(&r.batch_into) != class(&r.general_into) || (variant != 5 && r.batch_into.is_ok() && r.batch_into != r.general_into) {
+                out.violate(
+                    format!("{name}:into-vs-general-into"),
+                    format!("interp_array_into: {} for the static query type, {} for a dynamic rank-1 query with the same contents and the same buffer shape", class(&r.batch_into), class(&r.general_into)),
+                    case(),
+                );
+            }
+        }
+        if variant >= 1 && variant != 3 && variant != 5 {
             // with an out-of-range element all paths must agree on the verdict (message included)
             let v = |x: &Result<Vec<u64>, String>| x.as_ref().map(|_| ()).map_err(|e| e.clone());
             if v(&r.batch) != v(&r.singles) || v(&r.batch) != v(&r.general) || v(&r.batch) != v(&r.batch_into) {
@@ -368,7 +435,7 @@ fn body(ctx: &Ctx) -> (Summary, Meta) {
                     case(),
                 );
             }
-        } else if r.singles.is_err() || r.general.is_err() {
+        } else if (variant == 0 || variant == 3) && (r.singles.is_err() || r.general.is_err()) {
             out.violate(format!("{name}:reference"), format!("reference paths failed: {:?} / {:?}", r.singles.as_ref().err(), r.general.as_ref().err()), case());
         }
         if out.sample.is_none() {
@@ -378,7 +445,7 @@ fn body(ctx: &Ctx) -> (Summary, Meta) {
         out
     });
     let meta = Meta {
-        rule: "every instantiation of {data Ix1..Ix6, IxDyn} x {query Ix0, Ix1, Ix2 (m,1), Ix3 (1,m,1), IxDyn of runtime rank 1} x {owned, view, shared storage of data, axes and queries; in 2-D xs and ys (and x, y) get different storage kinds} x {f64, f32, i32, i64} x {Interp1D, Interp2D} is executed with Linear / Bilinear. The hook inside cast_unchecked asserts type_name / size / align equality on every executed cast and counts them: 2 (Interp1D) / 3 (Interp2D) casts iff the static query type is Ix1, 0 otherwise, for interp_array and interp_array_into alike; outputs of the fast path, of element-wise interp and of the general path (dynamic rank-1 query) are bit-identical. Each instantiation is run five times: all queries in range; one (not the last) element out of range; data with a zero-length last trailing axis plus an out-of-range element; +0.0 and -0.0 queries next to each other on data whose first-knot samples are -0.0 (float types); one element one ulp (one unit) above the last knot - the verdicts (Ok / the OutOfBounds message) of all paths must agree. Non-trivial = instantiation whose static query type is Ix1 (the cast is executed).".into(),
+        rule: "every instantiation of {data Ix1..Ix6, IxDyn} x {query Ix0, Ix1, Ix2 (m,1), Ix3 (1,m,1), IxDyn of runtime rank 1} x {owned, view, shared storage of data, axes and queries; in 2-D xs and ys (and x, y) get different storage kinds} x {f64, f32, i32, i64} x {Interp1D, Interp2D} is executed with Linear / Bilinear. The hook inside cast_unchecked asserts type_name / size / align equality on every executed cast and counts them: 2 (Interp1D) / 3 (Interp2D) casts iff the static query type is Ix1, 0 otherwise, for interp_array and interp_array_into alike; outputs of the fast path, of element-wise interp and of the general path (dynamic rank-1 query) are bit-identical. Each instantiation is run seven times: all queries in range; one (not the last) element out of range; data with a zero-length last trailing axis plus an out-of-range element; +0.0 and -0.0 queries next to each other on data whose first-knot samples are -0.0 (float types); one element one ulp (one unit) above the last knot; a buffer with one row too many plus an out-of-range element (fast and general *_into must fail in the same way); the query stored back to front (negative stride) with two different out-of-range elements - the verdicts (Ok / the OutOfBounds message) of all paths must agree. Non-trivial = instantiation whose static query type is Ix1 (the cast is executed).".into(),
         bounds: format!("{} instantiations (the whole finite table)", TABLE.len()),
         assumptions: vec!["type_name equality is a monitor for type identity, not a UB detector".into()],
         extra: vec![],
